@@ -286,7 +286,14 @@ class Filterbank(ABC):
             kernels.extract_tim(data, tim_ar, self.header.nchans, nsamps_r, ii * gulp)
         return TimeSeries(
             tim_ar,
-            self.header.new_header({"nchans": 1, "dm": 0, "nsamples": tim_len}),
+            self.header.new_header(
+                {
+                    "nchans": 1,
+                    "dm": 0,
+                    "nsamples": tim_len,
+                    "tstart": self.header.mjd_after_nsamps(start),
+                },
+            ),
         )
 
     def bandpass(
@@ -389,7 +396,14 @@ class Filterbank(ABC):
             )
         return TimeSeries(
             tim_ar,
-            self.header.new_header({"nchans": 1, "dm": dm, "nsamples": tim_len}),
+            self.header.new_header(
+                {
+                    "nchans": 1,
+                    "dm": dm,
+                    "nsamples": tim_len,
+                    "tstart": self.header.mjd_after_nsamps(start),
+                },
+            ),
         )
 
     def read_chan(
@@ -440,7 +454,14 @@ class Filterbank(ABC):
             tim_ar[ii * gulp : ii * gulp + nsamps_r] = data_2d[:, ichan]
         return TimeSeries(
             tim_ar,
-            self.header.new_header({"dm": 0, "nchans": 1, "nsamples": tim_len}),
+            self.header.new_header(
+                {
+                    "dm": 0,
+                    "nchans": 1,
+                    "nsamples": tim_len,
+                    "tstart": self.header.mjd_after_nsamps(start),
+                },
+            ),
         )
 
     def invert_freq(
@@ -477,6 +498,7 @@ class Filterbank(ABC):
         updates = {
             "fch1": self.header.fch1 + (self.header.nchans - 1) * self.header.foff,
             "foff": self.header.foff * -1,
+            "tstart": self.header.mjd_after_nsamps(start),
         }
 
         out_file = self.header.prep_outfile(
@@ -534,7 +556,10 @@ class Filterbank(ABC):
 
         mask = np.array(chan_mask).astype("bool")
         mask_value = np.float32(mask_value).astype(self.header.dtype)
-        out_file = self.header.prep_outfile(outfile_name)
+        out_file = self.header.prep_outfile(
+            outfile_name,
+            updates={"tstart": self.header.mjd_after_nsamps(start)},
+        )
         for nsamps_r, _ii, data in self.read_plan(
             gulp=gulp,
             start=start,
@@ -597,6 +622,7 @@ class Filterbank(ABC):
             "tsamp": self.header.tsamp * tfactor,
             "nchans": self.header.nchans // ffactor,
             "foff": self.header.foff * ffactor,
+            "tstart": self.header.mjd_after_nsamps(start),
         }
         out_file = self.header.prep_outfile(outfile_name, updates=updates)
 
@@ -738,6 +764,7 @@ class Filterbank(ABC):
                                 "nchans": 1,
                                 "nbits": 32,
                                 "data_type": "time series",
+                                "tstart": self.header.mjd_after_nsamps(start),
                             },
                             nbits=32,
                         ),
@@ -841,6 +868,7 @@ class Filterbank(ABC):
                                 "nchans": chanpersub,
                                 "fch1": fstart
                                 + (batch_start + i) * chanpersub * self.header.foff,
+                                "tstart": self.header.mjd_after_nsamps(start),
                             },
                             nbits=self.header.nbits,
                         ),
@@ -910,7 +938,11 @@ class Filterbank(ABC):
         if outfile_name is None:
             outfile_name = f"{self.header.basename}_digi.fil"
 
-        out_file = self.header.prep_outfile(outfile_name, nbits=nbits_out)
+        out_file = self.header.prep_outfile(
+            outfile_name,
+            updates={"tstart": self.header.mjd_after_nsamps(start)},
+            nbits=nbits_out,
+        )
         for _, _, data in self.read_plan(
             gulp=gulp,
             start=start,
@@ -970,7 +1002,11 @@ class Filterbank(ABC):
             self.header.nsamples * self.header.nchans,
             dtype=self.header.dtype,
         )
-        out_file = self.header.prep_outfile(outfile_name, nbits=self.header.nbits)
+        out_file = self.header.prep_outfile(
+            outfile_name,
+            updates={"tstart": self.header.mjd_after_nsamps(start)},
+            nbits=self.header.nbits,
+        )
         for nsamps_r, _, data in self.read_plan(
             gulp=gulp,
             start=start,
@@ -1040,6 +1076,7 @@ class Filterbank(ABC):
             "refdm": dm,
             "nchans": nsub,
             "nbits": 32,
+            "tstart": self.header.mjd_after_nsamps(start),
         }
         if outfile_name is None:
             outfile_name = f"{self.header.basename}_DM{dm:06.2f}.subbands"
